@@ -256,6 +256,8 @@ def check_rowwise(case, rec):
     kind, tl, ts, near = _policy(case, res, out, h, fields, model, (q, q_small, q_large, ns, nl), "RowWise", cap_applies=False,
                                  smallest_policy=False)
     rec.cls("outcome_" + kind)
+    if kind == "error_although_a_candidate_fits":
+        rec.cls("fits_but " + repo_frame(res.__traceback__) + ": " + str(res)[:70])
     if tl:
         rec.cls("unmet_large")
     if model.excess(n_small, case["hmax"]) < 0:
